@@ -51,6 +51,67 @@ fn main() {
         println!("violations {:?}\nstats {:?}\nharness_error {:?}", out.violations, out.stats.0, out.harness_error);
         return;
     }
+    if args.get(1).map(|s| s.as_str()) == Some("--replay-bench") {
+        let text = std::fs::read_to_string(&args[2]).expect("read replay file");
+        let v: serde_json::Value = serde_json::from_str(&text).expect("replay file is json");
+        let case: byzsim::Case = serde_json::from_value(v["case"].clone()).unwrap();
+        for i in 0..5 {
+            let t = std::time::Instant::now();
+            let out = simcore::engine::execute_case(&byzsim::ByzSim, &case, 1);
+            println!("exec {i}: {} us {:?}", t.elapsed().as_micros(), out.violations.iter().map(|v| v.signature()).collect::<Vec<_>>());
+        }
+        return;
+    }
+    if args.get(1).map(|s| s.as_str()) == Some("--micro") {
+        use qbase::cid::GenUniqueCid;
+        simcore::entropy::seed_thread_entropy(7);
+        let n = 65536;
+        let t = std::time::Instant::now();
+        let mut x = 0u8;
+        for _ in 0..n {
+            x ^= qbase::token::ResetToken::random_gen().encoding_size() as u8;
+        }
+        println!("reset tokens: {} us ({x})", t.elapsed().as_micros());
+        let t = std::time::Instant::now();
+        for _ in 0..n {
+            x ^= qbase::cid::ConnectionId::random_gen_with_mark(8, 0x80, 0x7f)[0];
+        }
+        println!("cids: {} us ({x})", t.elapsed().as_micros());
+        let router = std::sync::Arc::new(qinterface::component::route::QuicRouter::new());
+        let queue = std::sync::Arc::new(qinterface::component::route::RcvdPacketQueue::new());
+        let reg = router.registry_on_issuing_scid(queue, ());
+        let t = std::time::Instant::now();
+        for _ in 0..n {
+            x ^= reg.gen_unique_cid()[0];
+        }
+        println!("gen_unique_cid: {} us ({x})", t.elapsed().as_micros());
+        let router = std::sync::Arc::new(qinterface::component::route::QuicRouter::new());
+        let queue = std::sync::Arc::new(qinterface::component::route::RcvdPacketQueue::new());
+        let sink = byzsim::cid::Sink::default();
+        let reg = router.registry_on_issuing_scid(queue, sink.clone());
+        let scid = reg.gen_unique_cid();
+        let local = qbase::cid::ArcLocalCids::new(scid, reg);
+        let t = std::time::Instant::now();
+        local.set_limit(n as u64).unwrap();
+        println!("set_limit({n}): {} us", t.elapsed().as_micros());
+        let t = std::time::Instant::now();
+        drop(local);
+        println!("drop: {} us", t.elapsed().as_micros());
+        return;
+    }
+    if args.get(1).map(|s| s.as_str()) == Some("--panic-bench") {
+        simcore::panics::install();
+        for i in 0..6 {
+            let t = std::time::Instant::now();
+            let r = simcore::panics::guarded(|| {
+                let v: Vec<u32> = Vec::new();
+                let k = std::hint::black_box(3usize);
+                v[k]
+            });
+            println!("panic {i}: {} us, site {:?}", t.elapsed().as_micros(), r.err().map(|e| e.location));
+        }
+        return;
+    }
     let runs: u64 = args.get(1).and_then(|s| s.parse().ok()).unwrap_or(20000);
     let n = simcore::selftest::run(&byzsim::ByzSim, "C04", runs, simcore::Tier::Quick);
     if n > 0 {
